@@ -147,7 +147,7 @@ func runC20List(c *rt.C) {
 		n    *skiplist.Node
 	}
 	nl := nitro.NewNodeList(nil)
-	var model []ent // list order, head first
+	var model []ent   // list order, head first
 	var removed []ent // nodes taken off the list earlier: re-adding them must behave like adding any node
 	used := map[string]int{}
 	var trace []string
